@@ -12,6 +12,7 @@ from ..model import AnalysisError
 from ..symeval import SymEval
 from .. import scenario as SC
 from . import cli_common as cc
+from . import rng
 from .c20 import fresh_and_pure, CACHE_DECOS
 
 LEVEL = "other"
@@ -352,6 +353,7 @@ def dither(ctx, R="R-C18-dither-independence"):
             ctx.check(ok, R, f, rnode, "the draw depends on the signal only through its shape (signal-independent noise)",
                       "the size of the draw, %s, depends on the samples" % (S.show(size)[:120] if size is not None else "<none>"))
     ctx.need(seen >= 1, R, "no random draw analysed")
+    rng.check(ctx, R, f, set(DRAWS), "numpy.random.seed")
     fresh_and_pure_no_return(ctx, R, f)
     g = prog.func("torch.pytorch_dither")
     evg = SymEval(prog, g).run()
